@@ -38,10 +38,11 @@ _CMP = {
 class Scope:
     """Where names are looked up: module, optional class, optional env."""
 
-    def __init__(self, module, cls=None, env=None):
+    def __init__(self, module, cls=None, env=None, class_body=False):
         self.module = module
         self.cls = cls
         self.env = env or {}
+        self.class_body = class_body     # folding an expression written in the class body itself
 
     @classmethod
     def of(cls_, func, env=None):
@@ -58,7 +59,7 @@ def _class_const(model, klass, name, depth):
             continue
         seen.add(id(k))
         if name in k.consts:
-            return fold(k.consts[name], Scope(k.module, k), depth + 1)
+            return fold(k.consts[name], Scope(k.module, k, class_body=True), depth + 1)
         for b in k.node.bases:
             bk = resolve_class(b, Scope(k.module, k))
             if bk is not None:
@@ -179,8 +180,8 @@ def _fold(node, scope, depth):
         if node.id in ('True', 'False', 'None'):
             return {'True': True, 'False': False, 'None': None}[node.id]
         mod = scope.module
-        if scope.cls is not None and node.id in scope.cls.consts and False:
-            pass
+        if scope.class_body and scope.cls is not None and node.id in scope.cls.consts:
+            return fold(scope.cls.consts[node.id], Scope(mod, scope.cls, class_body=True), depth + 1)
         if node.id in mod.consts:
             return fold(mod.consts[node.id], Scope(mod), depth + 1)
         q = mod.imports.get(node.id)
@@ -285,3 +286,8 @@ def _fold(node, scope, depth):
 
 def fold_in(func, node, env=None):
     return fold(node, Scope.of(func, env))
+
+
+def class_const(klass, name):
+    """Value of a class-level constant (through bases), folded in class-body scope."""
+    return _class_const(klass.module.model, klass, name, 0)
